@@ -199,6 +199,7 @@ class Recorder:
         self.real_stream_class = stream_module.Stream
         self.streams, self.log, self.depth = [], [], 0
         self.pending_pages = 0
+        self.backgrounds = []       # (first log index, end log index, props) of every draw_background_image
         self.gradients = []         # (first log index, end log index, props) of every Gradient.draw
         self.font_events = []       # ('line', h) | ('add', h, key, hash, bitmap, size) | ('tf', h, name, size)
         self.tree_events = []       # ('ctx-begin', props) / ('ctx-end',) / ('leaf-begin', name) / ('leaf-end',) / index
@@ -277,6 +278,67 @@ def text_lines(font_events):
             following = next((e for e in font_events[i + 1:] if e[1] == event[1] and e[0] != 'add'), None)
             current[1].append(following[2:] if following and following[0] == 'tf' else None)
     return [line for line in lines if line[0]]
+
+
+def _items_between(recorder, lo, hi):
+    """The recorded calls lo … hi-1 as `call` items, every Gradient.draw among them replaced by one `grad` item."""
+    items, pos = [], lo
+    for begin, end, props in recorder.gradients:
+        if end <= lo or begin >= hi:
+            continue
+        if props is None or begin < pos or end > hi:
+            raise ShapeMismatch('Gradient.draw raised, nested or across a boundary')
+        items += [['call', wire_call(c)] for c in recorder.log[pos:begin]]
+        rect, colour = 're', ['srgb', 'i0', 'i0', 'i0', 'i1', 'i0', 'i0', 'i0']
+        if props['solid']:
+            segment = recorder.log[begin:end]
+            if not (len(segment) == 3 and segment[0][2] == 'tok' and segment[1][2] == 'color'):
+                raise ShapeMismatch('solid gradient is not rectangle / set_color / fill')
+            rect, colour = segment[0][4], pdfstream.colour_wire(segment[1][3])
+        items.append(['grad', props['h'], props['solid'], props['translucent'], pdfstream.num(props['scale_y']),
+                      rect, colour])
+        pos = end
+    items += [['call', wire_call(c)] for c in recorder.log[pos:hi]]
+    return items
+
+
+def background_line(recorder, mark):
+    """Protocol line of `docbg`: the recorded calls with every draw_background_image replaced by one `bg` item holding
+    what `layer.image.draw` did (calls and gradients), and every other Gradient.draw by a `grad` item."""
+    from vlib import sx
+    log = recorder.log
+
+    def is_on(call, h, name):
+        return call[0] == 'on' and call[1] == h and call[2] == name
+
+    items, pos = [], 0
+    for begin, end, props in recorder.backgrounds:
+        if begin < pos:
+            raise ShapeMismatch('nested draw_background_image')
+        items += _items_between(recorder, pos, begin)
+        h, seg = props['h'], log[begin:end]
+        if props['skip']:
+            if seg:
+                raise ShapeMismatch('a skipped background layer made calls')
+            items.append(['bg', h, [True, False, False, 're', 'i0', 'i0'], []])
+        elif props['no_repeat']:
+            prefix = 0 if props['unbounded'] else 3
+            if not (len(seg) >= prefix + 3 and seg[prefix] == ('group', h) and seg[prefix + 1][2] == 'tr' and
+                    is_on(seg[-1], h, 'dox')):
+                raise ShapeMismatch('no-repeat background is not [clip] / add_group / transform / image / Do')
+            rect = seg[0][4] if prefix else 're'
+            tx, ty = seg[prefix + 1][7], seg[prefix + 1][8]
+            items.append(['bg', h, [False, True, props['unbounded'], rect, pdfstream.num(tx), pdfstream.num(ty)],
+                          _items_between(recorder, begin + prefix + 2, end - 1)])
+        else:
+            if not (len(seg) >= 9 and seg[0] == ('pattern', h) and seg[1][0] == 'group' and is_on(seg[2], h, 'push') and
+                    is_on(seg[-1], h, 'pop') and is_on(seg[-4], h, 'scn') and seg[-3][2] == 'tok'):
+                raise ShapeMismatch('repeated background is not add_pattern / add_group / stacked(image, Do, cs, scn, re, f)')
+            items.append(['bg', h, [False, False, props['unbounded'], seg[-3][4], 'i0', 'i0'],
+                          _items_between(recorder, begin + 3, end - 6)])
+        pos = end
+    items += _items_between(recorder, pos, len(log))
+    return sx.line('docbg', mark, *items)
 
 
 def gradient_line(recorder, mark):
@@ -358,6 +420,20 @@ def recording():
             finally:
                 recorder.tree_events.append(('leaf-end',))
         setattr(draw_module, name, leaf)
+    # draw_background_image: its own calls are predicted by Model/BackgroundDraw from what it reads of the layer
+    real_dbi = draw_module.draw_background_image
+    saved[(draw_module, 'draw_background_image')] = real_dbi
+
+    def draw_background_image(stream, layer, image_rendering):
+        begin = len(recorder.log)
+        props = {'h': recorder.handle(stream), 'skip': bool(layer.image is None or 0 in layer.size),
+                 'no_repeat': tuple(layer.repeat) == ('no-repeat', 'no-repeat'), 'unbounded': bool(layer.unbounded)}
+        try:
+            return real_dbi(stream, layer, image_rendering)
+        finally:
+            recorder.backgrounds.append((begin, len(recorder.log), props))
+    draw_module.draw_background_image = draw_background_image
+
     # Gradient.draw: its calls are predicted by Model/GradientDraw from what it reads of `self.layout(...)`
     import weasyprint.images as images_module
     real_gradient_draw = images_module.Gradient.draw
